@@ -509,8 +509,63 @@ def main(tier, seed, replay=None):
         return camp.finish()
     install_canary()
     camp.run_witnesses(replay_case)
+    from .. import fuzz
+    if tier == "thorough":
+        fuzz.campaign(camp, __name__, runs=150000, shards=16)
+    elif fuzz.available():
+        fuzz.campaign(camp, __name__, runs=4000, shards=4)
+    else:
+        camp.extra["fuzz"] = "atheris not importable: the coverage-guided family was skipped in the quick tier (the thorough tier requires it)"
     if tier == "thorough":
         run_shards(camp, __name__, "shard", 16, examples=30000, engine_cases=40)
     else:
         run_shards(camp, __name__, "shard", 8, examples=500, engine_cases=6)
     return camp.finish()
+
+
+# ------------------------------------------------------------ coverage-guided family (thorough tier)
+FUZZ_SEEDS = [
+    "States.Format('{} and {}', $.s, $.n)", "States.Array(1, 'x', null, true, $.f)", "States.ArrayPartition($.arr, 2)", "States.ArrayContains($.arr, 3)",
+    "States.ArrayRange(1, 9, 2)", "States.ArrayGetItem($.arr, 0)", "States.ArrayLength($.arr)", "States.ArrayUnique($.arr)", "States.Base64Encode('a b')",
+    "States.Base64Decode('YSBi')", "States.Hash('x', 'SHA-256')", "States.JsonMerge($.obj, $.obj2, false)", "States.JsonToString($.obj)", "States.StringToJson($.js)",
+    "States.MathAdd($.n, -1)", "States.MathRandom(1, 2)", "States.StringSplit('a,b;c', ',;')", "States.UUID()",
+    "States.Format('it\\'s {}', States.Format('\\{{}\\}', States.ArrayLength(States.Array(1, States.Array()))))", "States.Format('a\\\\', $$.Execution.Name)",
+]
+FUZZ_DICT = ["States.", "Format", "Array", "ArrayPartition", "ArrayContains", "ArrayRange", "ArrayGetItem", "ArrayLength", "ArrayUnique", "Base64Encode", "Base64Decode", "Hash", "JsonMerge",
+             "JsonToString", "StringToJson", "MathAdd", "MathRandom", "StringSplit", "UUID", "(", ")", ", ", "'", "\\'", "\\\\", "{}", "\\{", "\\}", "$.s", "$.n", "$.arr", "$.obj", "$$.", "$", "null",
+             "true", "false", "-1", "1.5", "1e3", "'SHA-1'", "'MD5'", "''", " ", "\t"]
+
+
+def fuzz_setup():
+    repo()
+    install_canary()
+    return {"dict": FUZZ_DICT, "corpus": FUZZ_SEEDS, "max_len": 160}
+
+
+def fuzz_one(data):
+    try:
+        expr = data.decode("utf-8")
+    except UnicodeDecodeError:
+        return None
+    # path arguments containing filter / script expressions are evaluated with eval() by the path library (recorded finding C13-F14): never hand those to it
+    if "[?" in expr or "[(" in expr or "__" in expr or not expr.startswith("States."):
+        return None
+    # which control and non-ASCII characters count as white space between tokens is not specified (Python's \s takes \x1c-\x1f and \x85, JSON does not): printable ASCII and tab only
+    if any(not (32 <= ord(ch) < 127 or ch == "\t") for ch in expr):
+        return None
+    # path arguments outside the definite Reference Path grammar (C12's stated domain) are the path library's business: it reads e.g. '$.ob]j' as '$.obj'
+    import re
+    for tok in re.findall(r"\$[^\s,()']*", re.sub(r"'(?:\\.|[^'\\])*'", "''", expr)):
+        if not re.fullmatch(r"\$\$?(?:\.[A-Za-z_][A-Za-z0-9_]*|\[\d+\])*", tok):
+            return None
+    try:
+        fails, skipped = check_expr(expr, feats=("fuzz",))
+    except RecursionError:
+        return None
+    except (rt.IntrinsicFailure, rt.PathFailure, rt.Unspecified):
+        return None
+    classes = ["fuzz-expression", "fuzz-" + ("unspecified" if skipped else "judged")]
+    # an expression with several defects (unknown function *and* a path that addresses nothing) may be refused with either clean failure
+    fails = [(b, d) for b, d in fails if not b.startswith("wrong-failure-kind:path-failure") and not b.startswith("missed-path-failure")]
+    fails = [(b.split(":")[0] + ":" + (b.split(":")[1] + ":" if b.startswith("exception-type") else "") + "fuzz", d) for b, d in fails]
+    return {"case": {"kind": "expr", "expr": expr, "feats": ["fuzz"]}, "classes": classes, "nontrivial": expr.count("(") >= 2 or "\\" in expr, "fails": fails}
